@@ -774,6 +774,7 @@ type reconciler interface {
 const (
 	matcherNullRace  = "c25.noncurrentDeleteUnguarded"     // KF-C25-1
 	matcherRetention = "c25.retentionSortedByLastModified" // KF-C25-2
+	matcherMarkerRace = "c25.expiredDeleteMarkerNullRace"  // KF-C25-3
 )
 
 func run(env *ev.Env, c Case) (o ev.Outcome) {
@@ -839,6 +840,13 @@ func run(env *ev.Env, c Case) (o ev.Outcome) {
 		if env.Known(matcherNullRace) && f.stats["adversary_writes"] > 0 && strings.Contains(f.violation, "versionId=null") && strings.Contains(f.violation, "CURRENT version") && strings.HasPrefix(f.violation, "unjustified lifecycle action: DeleteObject") {
 			o.KnownHits = append(o.KnownHits, "KF-C25-1")
 			o.Excluded = true
+		} else if env.Known(matcherMarkerRace) && f.stats["adversary_writes"] > 0 && strings.Contains(f.violation, "versionId=null") && strings.Contains(f.violation, "CURRENT version") &&
+			strings.HasPrefix(f.violation, "unjustified lifecycle action: DeleteObject") && nullMarkerOverwritten(&c, f.violation) {
+			// ExpiredObjectDeleteMarker: the listed "null" delete marker of a versioning-suspended bucket was
+			// replaced by a client's put before the reconciler deleted it by version id (a delete marker has no
+			// ETag, so the guard of KF-C25-1's fix does not apply)
+			o.KnownHits = append(o.KnownHits, "KF-C25-3")
+			o.Excluded = true
 		} else if env.Known(matcherRetention) && c.LMModel == "pithos" && strings.Contains(f.violation, "most recent noncurrent versions") && lmReordered(&c, f.violation) {
 			// the retention count was taken over a history re-sorted by LastModified values
 			// that pithos' store rewrites on transitions
@@ -851,6 +859,30 @@ func run(env *ev.Env, c Case) (o ev.Outcome) {
 	}
 	o.NonTrivial = f.boundary || protected || boundaryCandidate(&c)
 	return
+}
+
+// nullMarkerOverwritten: the bucket is versioning-suspended, an enabled rule has ExpiredObjectDeleteMarker, and
+// the key named in the violation was listed with a "null" delete marker as its only version.
+func nullMarkerOverwritten(c *Case, violation string) bool {
+	if c.Versioning != "suspended" {
+		return false
+	}
+	rule := false
+	for _, r := range c.Rules {
+		if r.Status == "Enabled" && r.Expiration != nil && r.Expiration.ExpiredObjectDeleteMarker != nil && *r.Expiration.ExpiredObjectDeleteMarker {
+			rule = true
+		}
+	}
+	if !rule {
+		return false
+	}
+	for _, k := range c.Keys {
+		if !strings.Contains(violation, fmt.Sprintf("DeleteObject(%q, versionId=null)", k.Key)) {
+			continue
+		}
+		return len(k.Versions) == 1 && k.Versions[0].ID == "null" && k.Versions[0].Marker
+	}
+	return false
 }
 
 // lmReordered: the key named in the violation has reported LastModified values
